@@ -32,17 +32,28 @@ pub fn cancel_history(seed: u64, polls: Option<u64>, thorough: bool) -> History 
     let base = BuildOpts { n_trees, split_after, seed: rng.gen(), ..Default::default() };
     ops.push(Op::Build { idx, o: base.clone() });
     ops.push(Op::Commit);
-    // pending insertions (new + overwrites) and deletions
+    // pending updates, one of three shapes: insertions (new + overwrites) mixed with deletions,
+    // deletions only, insertions only
+    let shape = rng.gen_range(0..3);
     for _ in 0..rng.gen_range(3..=8) {
         let id = rng.gen_range(0..n0 + 6);
-        if rng.gen_bool(0.35) {
-            ops.push(Op::Del { idx, id });
+        let del = match shape {
+            0 => rng.gen_bool(0.35),
+            1 => true,
+            _ => false,
+        };
+        if del {
+            ops.push(Op::Del { idx, id: id % n0 });
         } else {
             ops.push(Op::Add { idx, id, v: gen_vector(&mut rng, dim, &p, false) });
         }
     }
-    ops.push(Op::Del { idx, id: 0 });
-    ops.push(Op::Add { idx, id: n0 + 7, v: gen_vector(&mut rng, dim, &p, false) });
+    if shape != 2 {
+        ops.push(Op::Del { idx, id: 0 });
+    }
+    if shape != 1 {
+        ops.push(Op::Add { idx, id: n0 + 7, v: gen_vector(&mut rng, dim, &p, false) });
+    }
     ops.push(Op::Commit);
     match polls {
         None => {
